@@ -351,7 +351,12 @@ def gen_cycle_scenario(R):
         lines += [f"define 1 0 3 {fmt_tree(later)}", "read 1", f"assign 0 1 {gen_val(R)}", "read 1"]
         return core.Scenario(lines, {"mode": "cycle"})
     inner = ("read", 0, 1, [("ret", 0), ("ret", 1), ("ret", 2)])
-    kind = R.choice(["direct", "direct", "direct", "through", "nocycle"])
+    kind = R.choice(["direct", "direct", "direct", "through", "nocycle", "cached", "cached", "cached-nocycle"])
+    # Computables are numbered in definition order (a function reads only Computables with a smaller number):
+    # ci = the Computable the function under test (co) reads; with a chain ci reads y through Computable 0
+    chain = R.random() < 0.4
+    ci = 1 if chain else 0
+    co = ci + 1
     if kind == "direct":
         t = ("write", 0, 0, v, ("ret", 3))
         for _ in range(R.choice([0, 1, 1, 2, 3])):
@@ -359,31 +364,42 @@ def gen_cycle_scenario(R):
             if m == "write-p":
                 t = ("write", 0, 4, R.choice([0, 1, 2, 1000]), t)
             elif m == "readc":
-                t = ("readc", 0, [t, t, t])
+                t = ("readc", ci, [t, t, t])
             else:
                 t = ("read", 0, 4, [t, t])
         outer = ("read", 0, 0, [t] * 3)
-    elif kind == "through":
-        t = ("write", 0, 1, v, ("ret", 3))
+    elif kind in ("through", "cached", "cached-nocycle"):
+        # cached (finding G15): ci is served from its cache (or re-validated without running) when the function reads
+        # it, so nothing reads y during the evaluation, and yet the function depends on y; cached-nocycle: it assigns
+        # x, which ci does not depend on
+        t = ("write", 0, 0 if kind == "cached-nocycle" else 1, v, ("ret", 3))
         if R.random() < 0.5:
             t = ("write", 0, 4, 1, t)
-        outer = ("readc", 0, [t, t, t])
+        if kind != "through" and R.random() < 0.3:
+            t = ("read", 0, 4, [t, t])
+        outer = ("readc", ci, [t, t, t])
     else:
         t = ("write", 0, 1, v, ("ret", 3))
         outer = ("read", 0, 0, [t, t]) if R.random() < 0.5 else t
     lines = ["scenario comp 0.0.obs,0.1.obs,0.2.comp,0.3.comp,0.4.obs,0.5.comp -", f"assign 0 1 {a}"]
-    if R.random() < 0.4:
-        lines += [f"define 2 0 5 {fmt_tree(inner)}", f"define 0 0 2 {fmt_tree(('readc', 2, [('ret', 0), ('ret', 1), ('ret', 2)]))}"]
+    if chain:
+        lines += [f"define 0 0 5 {fmt_tree(inner)}", f"define 1 0 2 {fmt_tree(('readc', 0, [('ret', 0), ('ret', 1), ('ret', 2)]))}"]
     else:
         lines.append(f"define 0 0 2 {fmt_tree(inner)}")
-    lines += ["read 0", f"assign 0 0 {R.choice([0, 1, 2])}"]
-    if R.random() < 0.8:
-        lines.append(f"assign 0 1 {b}")     # the inner Computable is now dirty and really changed
-    if kind == "nocycle" and R.random() < 0.7:
-        lines.append("read 0")              # … and evaluated again: its read of y is what must not be remembered
-    lines.append(f"define 1 0 3 {fmt_tree(outer)}")
+    lines += [f"read {ci}", f"assign 0 0 {R.choice([0, 1, 2])}"]
+    if kind in ("cached", "cached-nocycle"):
+        if R.random() < 0.5:
+            lines += [f"assign 0 1 {b}", f"assign 0 1 {a}"]      # dirty, but the pre-check finds nothing changed
+        elif R.random() < 0.5:
+            lines += [f"assign 0 1 {b}", f"read {ci}"]            # evaluated by an EARLIER read: clean now
+    else:
+        if R.random() < 0.8:
+            lines.append(f"assign 0 1 {b}")     # the inner Computable is now dirty and really changed
+        if kind == "nocycle" and R.random() < 0.7:
+            lines.append(f"read {ci}")          # … and evaluated again: its read of y is what must not be remembered
+    lines.append(f"define {co} 0 3 {fmt_tree(outer)}")
     for _ in range(R.randrange(0, 4)):
-        lines.append(R.choice([f"assign 0 1 {gen_val(R)}", f"assign 0 0 {gen_val(R)}", "read 1", "read 0"]))
+        lines.append(R.choice([f"assign 0 1 {gen_val(R)}", f"assign 0 0 {gen_val(R)}", f"read {co}", f"read {ci}"]))
     return core.Scenario(lines, {"mode": "cycle"})
 
 
@@ -531,6 +547,22 @@ def spec_eval(comps, store, c, depth=0):
             return "exc"
 
 
+def sources_of(last_reads, c, seen=None):
+    """the Observables Computable c depends on: the ones its last completed evaluation read and, through the Computables it
+    read, the ones those depend on"""
+    seen = set() if seen is None else seen
+    if c in seen:
+        return []
+    seen.add(c)
+    out = []
+    for ref, _ in last_reads.get(c) or []:
+        if ref.startswith("c"):
+            out += sources_of(last_reads, int(ref[1:]), seen)
+        else:
+            out.append(ref)
+    return out
+
+
 def oracle_comp(sc, obs):
     tr = sc.meta.get("trace") or []
     bad = []
@@ -573,14 +605,19 @@ def oracle_comp(sc, obs):
         elif k == "eval-read":
             stack[-1][1].append((ev[2], ev[3]))
             if not ev[2].startswith("c"):
-                record.append((ev[2], c))
+                record.append((ev[2], ev[1]))
+            else:
+                # G15: the function depends on whatever the Computable it reads depends on — also when that one was
+                # served from its cache and read nothing now: the Observables its last evaluation read, and so on
+                for kk in sources_of(last_reads, int(ev[2][1:])):
+                    record.append((kk, int(ev[2][1:])))
         elif k == "eval-write":
             _, c, key, v, how = ev
             readers = [rc for kk, rc in record if kk == key]
             if how == "done" and readers:
                 # a Computable that is being evaluated depends on `key` — its own function read it, or the function of
                 # a Computable evaluated for it did — and the evaluation assigned it: a cycle
-                who = "read" if c in readers else f"depends (through the evaluation of Computable {readers[0]}) on"
+                who = "read" if c in readers else f"depends (through Computable {readers[0]}) on"
                 bad.append(f"cycle-not-rejected: function of {c} assigned {key}, which the evaluation in progress {who} "
                            f"(reads so far: {[kk for kk, _ in record]}), without being rejected")
             if how == "rejected" and not readers:
@@ -615,16 +652,25 @@ def tags_comp(sc, obs):
     tr = sc.meta.get("trace") or []
     depth = 0
     mx = 0
+    direct = set()       # Observables read by a function that ran during the outermost evaluation in progress
     for e in tr:
         if e[0] == "eval-start":
             depth += 1
             mx = max(mx, depth)
         elif e[0] == "eval-end":
             depth -= 1
+            if depth == 0:
+                direct = set()
             if e[2] == "exc":
                 yield "branch:evaluation-raised"
+        elif e[0] == "eval-read" and not e[2].startswith("c"):
+            direct.add(e[2])
+        elif e[0] == "eval-read":
+            yield "branch:function-reads-computable"
         elif e[0] == "eval-write":
             yield "branch:write-" + e[4]
+            if e[4] == "rejected" and e[2] not in direct:
+                yield "branch:write-rejected-through-cached-computable"
     if mx >= 2:
         yield "branch:nested-evaluation"
     for l, o in zip(sc.lines[1:], obs[1:]):
